@@ -54,6 +54,60 @@ func exec(op string) (res string) {
 		return fmt.Sprint(gocql.VerifTokenLess("murmur3", string(hx(1)), string(hx(2))))
 	case "lessr":
 		return fmt.Sprint(gocql.VerifTokenLess("random", string(hx(1)), string(hx(2))))
+	case "qrk", "qrke":
+		// qrk <c1> .. <cn> / <c1> .. <cn> / ...   one Query object re-bound step by step
+		// qrke <explicit> / <c1> .. <cn> / ...      the same with an explicit routing key set first
+		var steps [][][]byte
+		cur := [][]byte{}
+		var explicit []byte
+		rest := w[1:]
+		if w[0] == "qrke" {
+			explicit = hx(1)
+			if explicit == nil {
+				explicit = []byte{}
+			}
+			rest = w[3:] // skip the explicit key and the first "/"
+		}
+		for _, t := range rest {
+			if t == "/" {
+				steps = append(steps, cur)
+				cur = [][]byte{}
+				continue
+			}
+			b, err := vh.UnHex(t)
+			if err != nil {
+				return "bad-op"
+			}
+			cur = append(cur, b)
+		}
+		steps = append(steps, cur)
+		n := len(steps[0])
+		types := make([]gocql.TypeInfo, n)
+		idx := make([]int, n)
+		for i := 0; i < n; i++ {
+			types[i] = gocql.NewNativeType(4, gocql.TypeBlob, "")
+			idx[i] = n - 1 - i
+		}
+		vsteps := make([][]interface{}, len(steps))
+		for si, st := range steps {
+			if len(st) != n {
+				return "bad-op"
+			}
+			vsteps[si] = make([]interface{}, n)
+			for i := 0; i < n; i++ {
+				vsteps[si][n-1-i] = st[i]
+			}
+		}
+		keys, errs := gocql.VerifQueryRoutingKeys(types, idx, vsteps, explicit)
+		outs := make([]string, len(keys))
+		for i := range keys {
+			if errs[i] != "" {
+				outs[i] = "err"
+			} else {
+				outs[i] = vh.Hex(keys[i])
+			}
+		}
+		return strings.Join(outs, " ")
 	case "rkey", "rkey-held":
 		n := len(w) - 1
 		types := make([]gocql.TypeInfo, n)
@@ -246,6 +300,27 @@ func main() {
 		if i%4 == 0 {
 			op = "rkey-held " + strings.Join(parts, " ")
 			out.Case(op, exec(op), fmt.Sprintf("rkey-held/%d", n), true)
+		}
+		if i%4 == 1 {
+			// the same Query object re-bound 2..4 times (Query.Bind): every step's key is the key of THAT step's values
+			k := 2 + r.Intn(3)
+			steps := []string{strings.Join(parts, " ")}
+			for s := 1; s < k; s++ {
+				ps := make([]string, n)
+				for j := range ps {
+					ps[j] = vh.Hex(genKey(r, r.Intn(20)))
+					if r.Intn(5) == 0 {
+						ps[j] = parts[j] // some components unchanged
+					}
+				}
+				steps = append(steps, strings.Join(ps, " "))
+			}
+			op = "qrk " + strings.Join(steps, " / ")
+			out.Case(op, exec(op), fmt.Sprintf("qrk/%d/steps%d", n, k), true)
+			if i%16 == 1 {
+				op = "qrke " + vh.Hex(genKey(r, r.Intn(12))) + " / " + strings.Join(steps, " / ")
+				out.Case(op, exec(op), fmt.Sprintf("qrke/%d/steps%d", n, k), true)
+			}
 		}
 	}
 	out.Close(nil)
